@@ -421,6 +421,19 @@ def render_root(ctx, size):
     return canv, err, rl
 
 
+def zero_row_listbox(exc):
+    """context for an exception out of keypress: did it pass through a ListBox.keypress that was given no rows?"""
+    tb = exc.__traceback__
+    while tb is not None:
+        code = tb.tb_frame.f_code
+        if code.co_name == "keypress" and code.co_filename.endswith("listbox.py"):
+            size = tb.tb_frame.f_locals.get("size")
+            if isinstance(size, tuple) and len(size) == 2 and size[1] <= 0:
+                return " [a ListBox was given 0 rows]"
+        tb = tb.tb_next
+    return ""
+
+
 def focus_chain(ctx):
     """Independent of get_focus_path: follow .focus from the root.  Returns (positions, id of the deepest focus widget)."""
     w = ctx.root
@@ -493,7 +506,7 @@ def run_case(case):
             except Exception as e:
                 offered = [(e2[1], e2[3]) for e2 in ctx.log if e2[0] == "key"]
                 o["op"] = ["E", exc_name(e)]
-                c["keyexc"] = f"{exc_name(e)}: {e}"
+                c["keyexc"] = f"{exc_name(e)}: {e}" + zero_row_listbox(e)
             c["offered"] = [lid for lid, _p in offered]
             c["offer_onpath"] = [[lid, 1 if p else 0] for lid, p in offered]
             moved = []
